@@ -235,6 +235,13 @@ def run(tier='quick'):
                         'included) to the library class of its generation: a 2.x / 3.x schema created through the legacy '
                         'path is not the reference schema of its version and is not recognised on load', floor=2)
     _c13.create_dispatch(prog, chk, X6)
+    X7 = chk.rule('X7', 'a created library contains what the creator class of its version executes and nothing else: no '
+                        'function outside the schema creator classes issues CREATE / ALTER / DROP (an extra trigger added by '
+                        'the library class after creator->create(db) is in no reference dump)', floor=1)
+    from . import extra as _extra
+    from .. import callgraph as _cgx, effects as _effx
+    _cg7 = _cgx.get(prog)
+    _extra.ddl_only_in_creators(prog, _cg7, _effx.Effects(prog, _cg7), chk, X7)
     return chk.finish(
         'Static comparison of DDL: the statement list each of the %d creator classes executes '
         '(final overriders resolved by class hierarchy, read from the clang AST) is interpreted over '
